@@ -1,8 +1,9 @@
 #!/bin/bash
 # Build the Lean model, theorems and driver, and cargo-vet's test binary with the harness.
 set -e
-cd /verif/lean
+HERE="$(cd "$(dirname "${BASH_SOURCE[0]}")" && pwd)"
+cd "$HERE/lean"
 lake build Vet vetdriver $(ls Vet/Props/*.lean 2>/dev/null | sed 's#/#.#g; s#\.lean$##')
-cd /verif
+cd "$HERE"
 mkdir -p .build evidence replay
 ./build_impl.sh | tail -1
